@@ -29,6 +29,8 @@ def is_error_ty(F, ty):
     k = t.kind()
     if k == "tuple" and not t.d["tuple"]:
         return True
+    if k == "alias" and t.s.endswith("::Error"):
+        return True          # <T as Visit>::Error: the visitor's own error type, whatever it is
     if k == "adt":
         p = t.adt()
         if p in F.adts and (p.endswith("Error") or p.endswith("ErrorCode")):
@@ -133,6 +135,19 @@ def errflow(ctx, rule, scope, forbid_map_err=False, exceptions=None, F=None):
                             rep.fail(rule, k, "the visitor's error is rewritten with map_err (must be returned unchanged)", fn.loc(t["line"]))
                         elif is_err:
                             rep.ob(rule, "%s::%s@propagating" % (fn.path, short), True, "", fn.loc(t["line"]), how="propagating combinator")
+                    if short in ("flat_map", "flatten", "flatten_ok") and d.startswith(("std::iter::", "core::iter::", "itertools::")):
+                        # a Result used as an iterator yields its Ok value and *nothing* for Err: flattening drops the error
+                        targs = [F.ty(i) for i in c.get("targs", [])]
+                        hit = [x for x in targs if result_err(F, x)]
+                        if not hit and dty is not None:
+                            hit = [x for x in dty.walk() if x.kind() == "adt" and x.adt() == "std::result::Result" and result_err(F, x)]
+                        if hit:
+                            k = "%s::%s-over-result" % (fn.path, short)
+                            if k in exceptions:
+                                used_exc.add(k)
+                                rep.ob(rule, k, True, "", fn.loc(t["line"]), how="reviewed: " + exceptions[k])
+                            else:
+                                rep.fail(rule, k, "Iterator::%s flattens values of type %s: an Err yields no element, so the error is silently dropped and the walk goes on" % (short, hit[0].s), fn.loc(t["line"]))
                     if d.startswith("std::mem::drop") and t["args"]:
                         pl = op_place(t["args"][0])
                         if pl is not None and not pl["p"] and result_err(F, fn.local_ty(pl["l"])):
